@@ -98,7 +98,7 @@ var (
 	ChunkingsQuick    = []string{"whole", "first1", "fixed1000"}
 	ChunkingsThorough = []string{"whole", "first1", "fixed1000", "fixed4096", "fixed7"}
 
-	Encodings = []string{"none", "gzip", "deflate", "deflate-zlib", "br", "gzip-badmagic", "gzip-baddata"}
+	Encodings = []string{"none", "gzip", "deflate", "deflate-zlib", "br", "gzip-badmagic", "gzip-baddata", "gzip-multi"}
 
 	RequestCTs  = []string{"text", "text-mixedcase", "json", "binary", "form:P1", "form:P2", "form:P3", "multipart:M1", "multipart:M2", "multipart:M3"}
 	ResponseCTs = []string{"text", "text-mixedcase", "json", "binary", "form:P1", "multipart:M2"}
@@ -443,6 +443,25 @@ func encodedBody(ct string, n int, enc string) *encoded {
 		e.encoded = c.payload
 	case "gzip":
 		e.encoded = gz()
+	case "gzip-multi":
+		// two gzip members back to back (RFC 1952 section 2.2): decodes to the concatenation
+		if len(c.payload) < 2 {
+			e.encoded = append(gz(), gz()[:0]...)
+			var b bytes.Buffer
+			w := gzip.NewWriter(&b)
+			w.Close()
+			e.encoded = append(e.encoded, b.Bytes()...) // second member is empty
+		} else {
+			h := len(c.payload) / 2
+			var b bytes.Buffer
+			w := gzip.NewWriter(&b)
+			w.Write(c.payload[:h])
+			w.Close()
+			w = gzip.NewWriter(&b)
+			w.Write(c.payload[h:])
+			w.Close()
+			e.encoded = b.Bytes()
+		}
 	case "gzip-badmagic":
 		e.encoded = gz()
 		e.encoded[0] ^= 0xff
@@ -542,7 +561,7 @@ func declaredCE(enc string) string {
 	switch enc {
 	case "none":
 		return ""
-	case "gzip", "gzip-badmagic", "gzip-baddata":
+	case "gzip", "gzip-multi", "gzip-badmagic", "gzip-baddata":
 		return "gzip"
 	case "deflate", "deflate-zlib":
 		return "deflate"
